@@ -1,5 +1,93 @@
 package c19
 
-import "verif/harness/core"
+import (
+	"bytes"
 
-func selfTest(ctx *core.Ctx) error { return core.Infra("not yet") }
+	"seehuhn.de/go/pdf"
+
+	"verif/harness/core"
+	"verif/harness/drive/shared"
+)
+
+// selfTest: (i) corrupted run records must be rejected, intact ones accepted;
+// (ii) the four negative-control configurations of the design model must fail
+// their invariant; (iii) the comparison with the fault-free run must notice a
+// different result, and the model's operation table must be as expected.
+func selfTest(ctx *core.Ctx) error {
+	doc, err := shared.GenerateDoc(5, shared.DocOptions{Version: pdf.V1_4, Seekable: true, Objects: 6, MinStreams: 1, Info: true})
+	if err != nil {
+		return core.Infra("self-test: %v", err)
+	}
+	sc := &readScenario{doc: doc, mode: pdf.ErrorHandlingStop}
+	base := sc.runRead(&faultSrc{r: bytes.NewReader(doc.Bytes), plan: faultPlan{Plan: "none"}, err: &injected{"none"}})
+	mk := func(p faultPlan) readRun {
+		src := &faultSrc{r: bytes.NewReader(doc.Bytes), plan: p, err: &injected{"x"}}
+		outs := sc.runRead(src)
+		compare(base, outs)
+		return readRun{Side: "read", Doc: "selftest", Mode: "stop", Plan: p, Hit: src.hit, Calls: outs, Outs: []wOut{}, Count: 1}
+	}
+	clone := func(r readRun) readRun {
+		r.Calls = append([]callOut{}, r.Calls...)
+		return r
+	}
+	noFault := mk(faultPlan{Plan: "none"})
+	faulted := mk(faultPlan{Plan: "failFrom", K: 6}) // in Stop mode every fault surfaces as an I/O error
+	if !faulted.Hit || len(faulted.Calls) == 0 {
+		return core.Infra("self-test: the fault was not reached")
+	}
+	last := len(faulted.Calls) - 1
+	if c := faulted.Calls[last]; c.Cls != "err" || !c.Carries || c.Malformed {
+		return core.Infra("self-test: expected an I/O error in Stop mode, got %+v", c)
+	}
+	differs := clone(noFault)
+	differs.Calls[1].Same = false
+	noCarry := clone(faulted)
+	noCarry.Calls[last].Carries = false
+	blamed := clone(faulted)
+	blamed.Calls[last].Malformed = true
+	wOK := readRun{Side: "write", Hit: true, Calls: []callOut{}, Outs: []wOut{{Cls: "err", Carries: true, Call: "Close"}}}
+	wSilent := readRun{Side: "write", Hit: true, Calls: []callOut{}, Outs: []wOut{{Cls: "ok", Call: "Close"}}}
+	wOther := readRun{Side: "write", Hit: true, Calls: []callOut{}, Outs: []wOut{{Cls: "err", Carries: false, Call: "Put"}}}
+	bad, err := judge(ctx, []readRun{noFault, faulted, differs, noCarry, blamed, wOK, wSilent, wOther, noFault})
+	if err != nil {
+		return err
+	}
+	want := []int{2, 3, 4, 6, 7}
+	if len(bad) != len(want) {
+		return core.Infra("self-test: corrupted runs not singled out: rejected %v, want %v", bad, want)
+	}
+	for i := range want {
+		if bad[i] != want[i] {
+			return core.Infra("self-test: corrupted runs not singled out: rejected %v, want %v", bad, want)
+		}
+	}
+	ctx.Logf("self-test (i): 5 corrupted runs rejected, 4 intact ones accepted")
+
+	for _, nc := range []struct{ cfg, inv, what string }{
+		{"MC_IOFault_ascoded.cfg", "NoSwallowedOpen", "shouldExit swallowing I/O errors in Recover mode (F7a, F7b)"},
+		{"MC_IOFault_helpers.cfg", "NoSilentlyShortStream", "helper reads ignoring errors (F7c)"},
+		{"MC_IOFault_nosrcaware.cfg", "ReadProperty", "a filter chain without sourceAwareReader"},
+		{"MC_IOFault_nosticky.cfg", "WriteProperty", "a bufio.Writer that forgets its error"},
+	} {
+		res, err := ctx.TLC(core.TLCOpts{Dir: "fault", Module: "MC_IOFault", Cfg: nc.cfg, Workers: 6, Mode: "negative-control"})
+		if err != nil {
+			return err
+		}
+		if res.Invariant != nc.inv {
+			return core.Infra("self-test: the model with %s should violate %s, got %q", nc.what, nc.inv, res.Invariant)
+		}
+		ctx.Logf("self-test (ii): the model with %s violates %s", nc.what, nc.inv)
+	}
+
+	other := append([]callOut{}, base...)
+	other[1].digest = "something else"
+	compare(base, other)
+	if other[1].Same || !other[0].Same {
+		return core.Infra("self-test: a different result of a call was not noticed")
+	}
+	if outcomeClass(callOut{Cls: "err", Carries: false, Malformed: true}) != "malformed-error-not-carrying" {
+		return core.Infra("self-test: outcome classes")
+	}
+	ctx.Logf("self-test (iii): a differing result is noticed by the comparison with the fault-free run")
+	return nil
+}
